@@ -445,7 +445,25 @@ class SOpaque(Sym):
             return mk_bool(self.e == o.e) if self.e.sort() == o.e.sort() else False
         if isinstance(o, SOpt):
             return o.__eq__(self)
+        if self.admits_literal(o):
+            return mk_bool(self.e == self.literal(o).e)
         return False
+
+    def admits_literal(self, o):
+        """Opaque kinds declared with `lit=(types,)` (e.g. Opaque("Bytes", lit=(bytes,))) contain the Python
+        constants of those types as individuals, so that `char == b" "` or a cell built from a default
+        argument b" " can be compared / mixed with symbolic individuals of the kind."""
+        lit = self.meta.get("lit")
+        return bool(lit) and isinstance(o, tuple(lit)) and not isinstance(o, Sym)
+
+    def literal(self, value):
+        """The individual denoted by a Python constant: one z3 constant per (kind, value); distinct constants
+        are distinct individuals (`code(lit_v) = atom_code(v)` for an uninterpreted `code`, asserted groundly)."""
+        c = z3.Const(f"{self.kind}!lit!{atom_code(value)}", self.e.sort())
+        code = z3.Function(f"{self.kind}!code", self.e.sort(), z3.IntSort())
+        if _current:
+            cur().assume(code(c) == atom_code(value))
+        return SOpaque(self.kind, c, dict(self.meta))
 
     def __ne__(self, o):
         return neg(self.__eq__(o))
@@ -454,6 +472,41 @@ class SOpaque(Sym):
 
     def __repr__(self):
         return f"SOpaque<{self.kind}>({self.e})"
+
+
+class SFmt(Sym):
+    """A `str` assembled by f-strings / `+` from literal text and decimal renderings of symbolic ints
+    (`f"[{y + 1:d};{x + 1:d}R"`): kept as the tuple of its parts (str | SInt), adjacent literals merged.
+    Model of `format(n, "d")`: the canonical decimal numeral of n (so two SFmt are equal iff their literal
+    skeletons agree and the ints agree — numerals do not contain the separators used here)."""
+
+    __slots__ = ("parts",)
+
+    def __init__(self, parts):
+        out = []
+        for p in parts:
+            if isinstance(p, str) and out and isinstance(out[-1], str):
+                out[-1] += p
+            elif not (isinstance(p, str) and not p):
+                out.append(p)
+        self.parts = tuple(out)
+
+    def __add__(self, o):
+        if isinstance(o, SFmt):
+            return SFmt(self.parts + o.parts)
+        if isinstance(o, str):
+            return SFmt(self.parts + (o,))
+        return NotImplemented
+
+    def __radd__(self, o):
+        if isinstance(o, str):
+            return SFmt((o,) + self.parts)
+        return NotImplemented
+
+    __hash__ = None
+
+    def __repr__(self):
+        return f"SFmt{self.parts!r}"
 
 
 # ---------------------------------------------------------------------------------------------
@@ -539,6 +592,7 @@ def ite(c, a, b):
 
 
 _NOITE = object()
+_SEQ_NAMES = ("SSeq", "_MovedSeq", "LiveEnum")
 
 
 class SIte(Sym):
@@ -575,6 +629,19 @@ def _ite_struct(ce, a, b):
         return _NOITE
     if isinstance(a, SOpaque) and isinstance(b, SOpaque) and a.kind == b.kind:
         return SOpaque(a.kind, z3.If(ce, a.e, b.e), dict(a.meta))
+    if isinstance(a, SOpaque) and a.admits_literal(b):
+        return _ite_struct(ce, a, a.literal(b))
+    if isinstance(b, SOpaque) and b.admits_literal(a):
+        return _ite_struct(ce, b.literal(a), b)
+    if type(a).__name__ in _SEQ_NAMES or type(b).__name__ in _SEQ_NAMES:
+        # two immutable sequence values (rows of a nested list): pointwise conditional
+        from .seqs import SSeq, seq_len, to_sseq
+
+        if isinstance(a, (SSeq, tuple)) and isinstance(b, (SSeq, tuple)):
+            sa, sb = to_sseq(a), to_sseq(b)
+            c = mk_bool(ce)
+            return SSeq(ite(c, seq_len(sa), seq_len(sb)), lambda j: ite(c, sa.get(j), sb.get(j)), sa.shape or sb.shape, None, "ite")
+        return _NOITE
     if isinstance(a, (SAtom,)) or isinstance(b, (SAtom,)):
         def code(x):
             if isinstance(x, SAtom):
@@ -682,8 +749,11 @@ def forall(lo, hi, fn):
         return r
     st = cur()
     if st.capture is None:
-        r0, _m = st._check(_z(lo) < _z(hi), 1000)
-        if r0 == z3.unsat:
+        if getattr(st, "has_quant", False):
+            empty = st.refuted_qf(_z(lo) < _z(hi))
+        else:
+            empty = st._check(_z(lo) < _z(hi), 1000)[0] == z3.unsat
+        if empty:
             return True  # empty range on this path
     j = z3.Int(st.fresh_name("q"))
     saved = st.capture
